@@ -6,6 +6,7 @@
 -/
 import Hpfeeds.Lemmas.AioClient
 import Hpfeeds.Lemmas.BlkSession
+import Hpfeeds.Lemmas.BlkClient
 namespace Hpfeeds.C11
 open Hpfeeds Extracted
 
@@ -116,4 +117,88 @@ example : (run exCfg [.connect, .inb (exInfo 9), .sel .again, .wBegin 3 (.pub [9
     .inb (exInfo 5), .sel .again, .wCheck 3, .wWake 3]).1.enq = [authFrame exCfg [5,8,7,6]] := by decide +kernel
 
 end Blk
+/-! ## blocking Client (hpfeeds/client.py, reconnect=True) -/
+namespace Client
+open Hpfeeds.BlkClient
+
+/-- On every connection, after ANY event sequence (application steps, answers of the network to every
+    blocking call, stop() at any moment, whatever the callbacks do): before the client has answered an
+    OP_INFO on the current socket it has sent nothing on it. -/
+theorem nothing_before_info (cfg : Cfg) (es : List Ev) (h : (run cfg es).1.nonce = none) :
+    (run cfg es).1.sent = [] :=
+  (kinv_run cfg es).quiet h
+
+/-- … and everything it has sent on it begins with the OP_AUTH for the nonce it answered; while the
+    connection is being set up (connect / do_auth) nothing has been answered yet. -/
+theorem first_frame_is_auth (cfg : Cfg) (es : List Ev) (r : Bytes) (h : (run cfg es).1.nonce = some r) :
+    ∃ rest, (run cfg es).1.sent = authFrame cfg r :: rest :=
+  (kinv_run cfg es).first r h
+
+theorem setup_is_silent (cfg : Cfg) (es : List Ev) (h : ConnPc (run cfg es).1.pc) :
+    (run cfg es).1.nonce = none ∧ (run cfg es).1.sent = [] :=
+  ⟨(kinv_run cfg es).pre h, (kinv_run cfg es).quiet ((kinv_run cfg es).pre h)⟩
+
+/-- the nonce answered is the one of the OP_INFO that is the FIRST frame received on that socket: do_auth,
+    in any state, given a chunk that starts (unpacker empty, as after connect()) with a well-formed frame -/
+theorem answers_this_connections_info (cfg : Cfg) (s : State) (who : Who) (f : Frame) (tail n rand : Bytes)
+    (hu : s.ubuf = []) (hf : f.WF) (hop : f.op.toNat = OP_INFO) (hrd : read f = some (.ok (.info n rand))) :
+    (doAuth cfg s who (enc f ++ tail)).1.pc = .authSend who rand ∧ (doAuth cfg s who (enc f ++ tail)).2 = [] ∧
+    (doAuth cfg s who (enc f ++ tail)).1.ubuf = tail := by
+  have hh : header (s.ubuf ++ (enc f ++ tail)) = .ok (5 + f.body.length) f.op := by
+    rw [hu, List.nil_append]; exact header_enc_append f tail hf
+  have hp := popFrame_enc_append f tail
+  unfold doAuth
+  simp only [hh]
+  rw [hu, List.nil_append, hp]
+  simp [hop, hrd]
+
+/-- … a first frame that is not an OP_INFO (or an incomplete one) is never answered: new connection -/
+theorem no_info_no_answer (cfg : Cfg) (s : State) (who : Who) (f : Frame) (tail : Bytes)
+    (hu : s.ubuf = []) (hf : f.WF) (hop : f.op.toNat ≠ OP_INFO) :
+    ∃ s', doAuth cfg s who (enc f ++ tail) = retry s' who := by
+  have hh : header (s.ubuf ++ (enc f ++ tail)) = .ok (5 + f.body.length) f.op := by
+    rw [hu, List.nil_append]; exact header_enc_append f tail hf
+  have hp := popFrame_enc_append f tail
+  unfold doAuth
+  simp only [hh]
+  rw [hu, List.nil_append, hp]
+  simp only [hop, if_false]
+  exact ⟨_, rfl⟩
+
+/-- Client.run then sends OP_SUBSCRIBE for exactly the wanted channels: from the top of run()'s loop on a
+    usable connection, with every sendall succeeding, the frames written are one OP_SUBSCRIBE per member of
+    the set, once each, in (sorted) set order, and then run() reads.  (`subs` is the set: below.) -/
+theorem run_subscribes (cfg : Cfg) (s : State) (ch : Bytes) (rest : List Bytes) (hst : s.stopped = false)
+    (hc : s.connected = true) (hu : usable s = true) (hs : sortBytes s.subs = ch :: rest) :
+    (runTop s).1.pc = .subSend ch rest .run ∧
+    (sendOks cfg (runTop s).1 (rest.length + 1)).2 = (sortBytes s.subs).map (fun c => Out.wrote s.nsock (subFrame cfg c)) ∧
+    (sendOks cfg (runTop s).1 (rest.length + 1)).1.pc = .runRecv := by
+  have e : runTop s = ({ s with pc := .subSend ch rest .run }, []) := by
+    simp [runTop, hst, hs, subLoop, hu]
+  rw [e]
+  have := subscribe_all cfg rest { s with pc := .subSend ch rest .run } ch rfl hc hu
+  exact ⟨rfl, by rw [hs]; exact this.1, this.2.1⟩
+
+/-- the wanted set only grows (Client has subscribe() and no unsubscribe()): whatever happens, a channel the
+    application subscribed — before run(), between runs, or from inside a callback — stays wanted -/
+theorem wanted_is_kept (cfg : Cfg) (s : State) (e : Ev) (ch : Bytes) (h : ch ∈ s.subs) : ch ∈ (step cfg s e).1.subs :=
+  (mo_step cfg s e).subs ch h
+
+theorem subscribe_adds (cfg : Cfg) (s : State) (ch : Bytes) (h : s.pc = .idle) : ch ∈ (step cfg s (.sub ch)).1.subs := by
+  simp only [step, h]
+  split <;> simp_all
+
+/-! non-vacuity (kernel-evaluated, hash := id): refused, then connected; INFO answered with ITS nonce; run()
+    subscribes the two channels in set order; a later loss + reconnection answers the NEW nonce and
+    resubscribes -/
+def exCfg : Cfg := { ident := [109], secret := [115], H := id }
+def exInfo (a : UInt8) : Bytes := [0,0,0,12,1,2,104,112,a,8,7,6]
+example : (run exCfg [.new, .connRefused, .connOk, .data (exInfo 9), .sendOk, .sub [100], .sub [99], .run, .sendOk, .sendOk,
+    .eof, .connOk, .data (exInfo 5), .sendOk, .sendOk, .sendOk]).2 =
+    [.attempt 1, .sleep, .closed 1, .attempt 2, .wrote 2 (authFrame exCfg [9,8,7,6]),
+     .wrote 2 (subFrame exCfg [99]), .wrote 2 (subFrame exCfg [100]),
+     .closed 2, .attempt 3, .wrote 3 (authFrame exCfg [5,8,7,6]), .wrote 3 (subFrame exCfg [99]), .wrote 3 (subFrame exCfg [100])] := by
+  decide +kernel
+
+end Client
 end Hpfeeds.C11
